@@ -68,6 +68,9 @@ func init() {
 }
 
 func runC03(c *Ctx, r *Report) {
+	importFoundation(c, r, "C03", "transport-pipe")
+	r.Rule("C03/fresh-operation", "netconf.NewOperation hands every caller a freshly allocated options object: the filter / defaults mode / commit arguments of one request never show up in a later one", 1)
+	checkFreshOperation(c, r, "C03/fresh-operation", []string{"driver/netconf"})
 	importFoundation(c, r, "C03", "client-hello")
 	importFoundation(c, r, "C03", "netconf-version")
 	importFoundation(c, r, "C03", "write-primitives")
